@@ -82,22 +82,26 @@ def seq_container(ctx, driver, trace_module, model_checks, depth, shards=8, extr
     kw = dict(variant_of=variant_of) if variant_of else {}
     nviol = vlib.check_recordings(ctx, driver, trace_module, summ["files"], opn, **kw)
     if after and not nviol:
-        after(ctx, summ["files"])
+        nviol += after(ctx, summ["files"]) or 0
     vlib.write_evidence(ctx, exhaustive=False)
     return nviol
 
 
 @handler("C05")
 def c05(ctx):
+    def after(ctx, files):
+        return vlib.binding_a(ctx, "QueueGen", ["QueueGen_q.cfg", "QueueGen_l.cfg"], "queue", "tree", "QueueTrace")
     return seq_container(ctx, "queue", "QueueTrace", [("QueueMC", "QueueMC.cfg")],
-                         depth=dict(quick=6, thorough=8))
+                         depth=dict(quick=6, thorough=8), after=after)
 
 
 @handler("C06")
 def c06(ctx):
+    def after(ctx, files):
+        return vlib.binding_a(ctx, "StackGen", ["StackGen_s.cfg", "StackGen_l.cfg"], "stack", "tree", "StackTrace")
     return seq_container(ctx, "stack", "StackTrace", [("StackMC", "StackMC.cfg")],
                          depth=dict(quick=7, thorough=9),
-                         kf_controls=[("StackMC", "StackMC_kf.cfg", "LIFO")])
+                         kf_controls=[("StackMC", "StackMC_kf.cfg", "LIFO")], after=after)
 
 
 def design_layer(ctx, module, files, tag):
@@ -153,8 +157,10 @@ def c10(ctx):
 
 @handler("C07")
 def c07(ctx):
+    def after(ctx, files):
+        return vlib.binding_a(ctx, "LRUGen", ["LRUGen_1.cfg", "LRUGen_2.cfg", "LRUGen_3.cfg"], "lru", "tree", "LRUTrace")
     return seq_container(ctx, "lru", "LRUTrace", [("LRUMC", "LRUMC.cfg")],
-                         depth=dict(quick=4, thorough=5), shards=12)
+                         depth=dict(quick=4, thorough=5), shards=12, after=after)
 
 
 @handler("C09")
